@@ -588,4 +588,90 @@ theorem runG_ledger {wg : World × Ghost} (ops : List (Block × Op)) (hi : Ledge
   | nil => exact hi
   | cons op rest ih => exact ih (stepG_ledger op.1 op.2 hi)
 
+theorem bankSend_spec {w w' : World} {src dst : Addr} {d : String} {amt : Nat} (h : w.bankSend src dst d amt = some w') :
+    amt ≤ w.bankBal src d ∧ ∀ a x, w'.bankBal a x =
+      if (dst, d) = (a, x) then (if (src, d) = (a, x) then w.bankBal a x - amt else w.bankBal a x) + amt
+      else if (src, d) = (a, x) then w.bankBal a x - amt else w.bankBal a x := by
+  unfold World.bankSend at h
+  split at h
+  · simp at h
+  · rename_i hlt
+    simp at h; subst h
+    refine ⟨by omega, ?_⟩
+    intro a x
+    simp only [World.bankBal, AMap.get?_set]
+    by_cases h1 : (dst, d) = (a, x)
+    · cases h1
+      by_cases h2 : (src, d) = (dst, d)
+      · cases h2; simp
+      · simp [h2]
+    · by_cases h2 : (src, d) = (a, x)
+      · cases h2; simp [h1]
+      · simp [h1, h2]
+
+theorem tokSend_spec {w w' : World} {t src dst : Addr} {amt : Nat} (h : w.tokSend t src dst amt = some w') :
+    amt ≤ w.tokBal t src ∧ ∀ t' a, w'.tokBal t' a =
+      if (t, dst) = (t', a) then (if (t, src) = (t', a) then w.tokBal t' a - amt else w.tokBal t' a) + amt
+      else if (t, src) = (t', a) then w.tokBal t' a - amt else w.tokBal t' a := by
+  unfold World.tokSend at h
+  split at h
+  · simp at h
+  · rename_i hlt
+    simp at h; subst h
+    refine ⟨by omega, ?_⟩
+    intro t' a
+    simp only [World.tokBal, AMap.get?_set]
+    by_cases h1 : (t, dst) = (t', a)
+    · cases h1
+      by_cases h2 : (t, src) = (t, dst)
+      · cases h2; simp
+      · simp [h2]
+    · by_cases h2 : (t, src) = (t', a)
+      · cases h2; simp [h1]
+      · simp [h1, h2]
+
+/-- `undo_reduce` after `reduce` gives back the very same map. -/
+theorem undoReduce_reduce_eq {m m' m'' : ChanMap} {c : String} {d : Denom} {amt : Nat}
+    (h : reduceBalance m c d amt = .ok m') (h2 : undoReduce m' c d amt = .ok m'') : m'' = m := by
+  obtain ⟨cs, hg, hle, rfl, _, _⟩ := reduceBalance_spec h
+  simp [undoReduce] at h2
+  obtain ⟨_, rfl⟩ := h2
+  have e : cs.outstanding - amt + amt = cs.outstanding := by omega
+  rw [AMap.set_set, e]
+  exact AMap.set_get_self m (c, d) cs hg
+
+
+/-! ## Sum over channels of the outstanding balance of one denomination -/
+
+/-- Σ over all channel-state entries of denomination `d` of the outstanding balance. -/
+def sumDenom (m : ChanMap) (d : Denom) : Nat :=
+  match m with
+  | [] => 0
+  | (k, cs) :: rest => (if k.2 = d then cs.outstanding else 0) + sumDenom rest d
+
+theorem sumDenom_set (m : ChanMap) (k : Key) (v : ChanState) (d : Denom) :
+    sumDenom (m.set k v) d + (if k.2 = d then outAt m k else 0) =
+    sumDenom m d + (if k.2 = d then v.outstanding else 0) := by
+  induction m with
+  | nil => simp [AMap.set, sumDenom, outAt]
+  | cons e rest ih =>
+    obtain ⟨k', cs⟩ := e
+    by_cases h : k' = k
+    · subst h
+      simp [AMap.set, sumDenom, outAt, AMap.get?]
+      split <;> omega
+    · have e1 : outAt ((k', cs) :: rest) k = outAt rest k := by simp [outAt, AMap.get?, h]
+      simp only [AMap.set, h, if_false, sumDenom, e1]
+      omega
+
+theorem outAt_le_sumDenom (m : ChanMap) (k : Key) : outAt m k ≤ sumDenom m k.2 := by
+  induction m with
+  | nil => simp [outAt]
+  | cons e rest ih =>
+    obtain ⟨k', cs⟩ := e
+    by_cases h : k' = k
+    · subst h; simp [outAt, AMap.get?, sumDenom]
+    · have e1 : outAt ((k', cs) :: rest) k = outAt rest k := by simp [outAt, AMap.get?, h]
+      rw [e1]; simp only [sumDenom]; omega
+
 end CwPlus.Ics20
